@@ -73,15 +73,37 @@ type c20Snap struct {
 	Version uint64                       `json:"version"`
 	Count   uint16                       `json:"count"`
 	Assign  []multiraft.SlotID           `json:"assign"`
-	Migs    []hashslot.HashSlotMigration `json:"migs"`
+	// Migs is the accessor-independent view: GetMigration(hs) for every hash
+	// slot 0..h-1, in hash-slot order. State identity, the version clause and
+	// the round-trip clause are judged on it.
+	Migs []hashslot.HashSlotMigration `json:"migs"`
+	// Active is what ActiveMigrations() lists (must name the same records).
+	Active []hashslot.HashSlotMigration `json:"active"`
+}
+
+func c20PhaseName(p hashslot.MigrationPhase) string {
+	switch p {
+	case hashslot.PhaseSnapshot:
+		return "snapshot"
+	case hashslot.PhaseDelta:
+		return "delta"
+	case hashslot.PhaseSwitching:
+		return "switching"
+	case hashslot.PhaseDone:
+		return "done"
+	}
+	return "other"
 }
 
 func c20Snapshot(t *hashslot.HashSlotTable, h int) c20Snap {
 	s := c20Snap{Version: t.Version(), Count: t.HashSlotCount(), Assign: make([]multiraft.SlotID, h)}
 	for i := 0; i < h; i++ {
 		s.Assign[i] = t.Lookup(uint16(i))
+		if g := t.GetMigration(uint16(i)); g != nil {
+			s.Migs = append(s.Migs, *g)
+		}
 	}
-	s.Migs = t.ActiveMigrations()
+	s.Active = t.ActiveMigrations()
 	return s
 }
 
@@ -328,16 +350,41 @@ func (m *c20Mon) checkMapping(t *hashslot.HashSlotTable, h int, s c20Snap, full 
 
 // checkMigrationViews: GetMigration agrees with ActiveMigrations.
 func (m *c20Mon) checkMigrationViews(t *hashslot.HashSlotTable, s c20Snap, ctx func() any) {
-	for i, mg := range s.Migs {
-		if i > 0 && s.Migs[i-1].HashSlot >= mg.HashSlot {
+	// GetMigration(hs) must report the hash slot it was asked for
+	for _, mg := range s.Migs {
+		if g := t.GetMigration(mg.HashSlot); g == nil || *g != mg {
+			m.r.Violation("getmigration-not-single-valued", map[string]any{"first": mg, "second": g, "ctx": ctx()})
+			return
+		}
+	}
+	for i, mg := range s.Active {
+		if i > 0 && s.Active[i-1].HashSlot >= mg.HashSlot {
 			m.r.Violation("activemigrations-duplicate-hashslot", map[string]any{"state": s.witness(), "ctx": ctx()})
 			return
 		}
-		g := t.GetMigration(mg.HashSlot)
-		if g == nil || *g != mg {
-			m.r.Violation("getmigration-disagrees", map[string]any{"listed": mg, "get": g, "ctx": ctx()})
+	}
+	// ActiveMigrations and GetMigration must name the same set of records, in
+	// every phase the type defines (the code documents no phase as "not
+	// active": a record exists until FinalizeMigration/AbortMigration).
+	byHS := make(map[uint16]hashslot.HashSlotMigration, len(s.Active))
+	for _, mg := range s.Active {
+		byHS[mg.HashSlot] = mg
+	}
+	for _, mg := range s.Migs {
+		a, ok := byHS[mg.HashSlot]
+		if !ok {
+			m.r.Violation("activemigrations-omits-record:"+c20PhaseName(mg.Phase), map[string]any{"getmigration": mg, "state": s.witness(), "ctx": ctx()})
 			return
 		}
+		if a != mg {
+			m.r.Violation("getmigration-disagrees", map[string]any{"listed": a, "get": mg, "ctx": ctx()})
+			return
+		}
+		delete(byHS, mg.HashSlot)
+	}
+	for _, a := range byHS {
+		m.r.Violation("getmigration-omits-record:"+c20PhaseName(a.Phase), map[string]any{"listed": a, "state": s.witness(), "ctx": ctx()})
+		return
 	}
 }
 
@@ -366,6 +413,30 @@ func (m *c20Mon) checkRoundTrip(t *hashslot.HashSlotTable, h int, s c20Snap, ctx
 	case !c20SameAssign(ds.Assign, s.Assign):
 		r.Violation("roundtrip-assignment-differs", map[string]any{"orig": s.witness(), "decoded": ds.witness(), "ctx": ctx()})
 	case !c20SameMigs(ds.Migs, s.Migs):
+		// judged on GetMigration(hs) of both tables, hash slot by hash slot
+		om := map[uint16]hashslot.HashSlotMigration{}
+		for _, mg := range s.Migs {
+			om[mg.HashSlot] = mg
+		}
+		phase, detail := "other", map[string]any{}
+		for _, mg := range ds.Migs {
+			if o, ok := om[mg.HashSlot]; !ok {
+				phase, detail = c20PhaseName(mg.Phase), map[string]any{"hash_slot": mg.HashSlot, "original": nil, "decoded": mg}
+			} else if o != mg {
+				phase, detail = c20PhaseName(o.Phase), map[string]any{"hash_slot": mg.HashSlot, "original": o, "decoded": mg}
+				delete(om, mg.HashSlot)
+			} else {
+				delete(om, mg.HashSlot)
+			}
+		}
+		for _, o := range s.Migs {
+			if _, lost := om[o.HashSlot]; lost {
+				phase, detail = c20PhaseName(o.Phase), map[string]any{"hash_slot": o.HashSlot, "original": o, "decoded": nil}
+				break
+			}
+		}
+		r.Violation("roundtrip-migration-record-differs:"+phase, map[string]any{"record": detail, "orig": s.witness(), "decoded": ds.witness(), "ctx": ctx()})
+	case !c20SameMigs(ds.Active, s.Active):
 		r.Violation("roundtrip-migrations-differ", map[string]any{"orig": s.witness(), "decoded": ds.witness(), "ctx": ctx()})
 	case ds.Version != s.Version:
 		r.Violation("roundtrip-version-differs", map[string]any{"orig": s.witness(), "decoded": ds.witness(), "ctx": ctx()})
@@ -379,6 +450,17 @@ func (m *c20Mon) checkRoundTrip(t *hashslot.HashSlotTable, h int, s c20Snap, ctx
 		}
 		r.Count("roundtrips", 1)
 		if len(s.Migs) > 0 {
+			var seenPhase [5]bool
+			for _, mg := range s.Migs {
+				i := int(mg.Phase)
+				if i > 4 {
+					i = 4
+				}
+				if !seenPhase[i] {
+					seenPhase[i] = true
+					r.Count("roundtrips_with_migration_in_phase."+c20PhaseName(mg.Phase), 1)
+				}
+			}
 			r.Count("roundtrips_with_active_migrations", 1)
 			r.Max("max_active_migrations_roundtripped", len(s.Migs))
 		}
